@@ -560,6 +560,49 @@ pub fn run_ctor(ctx: &Ctx, report: &mut Report) {
     }
 }
 
+/// Long-lived instances: several hundred probe cycles on one instance (acknowledged directly or
+/// through a helper), so that every small counter wraps - in both build regimes, where a plain `+ 1`
+/// on an 8-bit counter is an overflow panic.
+pub struct LongLivedPart;
+impl Part for LongLivedPart {
+    type Case = Case;
+    fn name(&self) -> &'static str {
+        "long-lived-instance"
+    }
+    fn strategy(&self, t: Tier) -> BoxedStrategy<Case> {
+        crate::props::c12::LongPart.strategy(t)
+    }
+    fn cases(&self, tier: Tier) -> u64 {
+        tier.pick(200, 5_000)
+    }
+    fn exec(&self, c: &Case, out: &mut CaseOut) -> Result<(), Fail> {
+        let mut r = Runner::new(&c.setup);
+        let mut pings = 0u64;
+        for op in &c.ops {
+            let Some((rec, _)) = r.step(op) else { continue };
+            if let Res::Panic(msg) = &rec.res {
+                return Err(Fail::new(
+                    format!("C06:panic:{}", panic_signature(msg)),
+                    format!("Foca panicked ({}) in {} after {} probe rounds of one instance\n message: {}", regime(), rec.call.kind(), pings, msg),
+                ));
+            }
+            if matches!(rec.call, Call::Timer(foca::Timer::ProbeRandomMember(_))) {
+                pings += 1;
+            }
+        }
+        out.sub_evaluations += pings;
+        out.max("probe_rounds_of_one_instance", pings);
+        if pings > 256 {
+            out.class("more_than_256_probe_rounds");
+            out.nontrivial((pings / 16, c.setup.codec));
+        }
+        Ok(())
+    }
+    fn max_shrink_iters(&self) -> u32 {
+        100
+    }
+}
+
 pub fn run_inner(ctx: &Ctx, report: &mut Report) {
     ctx.replay_corpus("api_ops", report);
     ctx.replay_corpus("wire_bytes", report);
@@ -568,6 +611,7 @@ pub fn run_inner(ctx: &Ctx, report: &mut Report) {
         ctx.fuzz_campaign("wire_bytes", 20_000_000, 300, report);
     }
     ctx.run_part(&OpsPart, report);
+    ctx.run_part(&LongLivedPart, report);
     let list = scenario_list(ctx.tier);
     ctx.run_enum("scripted-large-sizes", list.len() as u64, |i| list[i as usize].clone(), exec_scenario, report, false);
     run_ctor(ctx, report);
@@ -651,7 +695,7 @@ pub fn run(ctx: &Ctx, report: &mut Report) -> EvidenceMeta {
     }
     EvidenceMeta {
         level: "exploration",
-        rule: "every generator runs twice: in a release build and in an optimised build with debug assertions + overflow checks (child process). (1) proptest sequences of up to 200 operations on two wired instances (full alphabet: structurally valid datagrams with adversarial fields, mangled/truncated/random bytes, issued timers in any order and re-delivered, hand-crafted timers of every variant with arbitrary tokens/identities, apply_many, announce/gossip/broadcast, add_broadcast incl. empty/oversized/near-u16::MAX, leave, change_identity to any identity, reuse, set_config legal and illegal incl. packet-size changes; packet sizes 1..70000, max_transmissions 1..254, 4 codecs), every emitted datagram can be delivered (also twice) to the other instance; (2) scripted large-size scenarios (items around 65535 bytes under packet limits around 64 KiB, packet-size reconfiguration followed by every kind of send, very large Feed); (3) Config::new_lan/new_wan for every 251st NonZeroU32 plus boundaries (quick) or all 2^32-1 values (thorough). Oracle: catch_unwind around every call: no panic. Non-trivial: a sequence that reached >= 3 distinct Error variants, a state change after a successful reconfiguration, or a crafted timer carrying the current token; distinct = (set of (call kind, result kind), set of message kinds sent, regime)."
+        rule: "every generator runs twice: in a release build and in an optimised build with debug assertions + overflow checks (child process). (0) long-lived instances: 260..330 acknowledged probe cycles on one instance so that 8-bit counters wrap; (1) proptest sequences of up to 200 operations on two wired instances (full alphabet: structurally valid datagrams with adversarial fields, mangled/truncated/random bytes, issued timers in any order and re-delivered, hand-crafted timers of every variant with arbitrary tokens/identities, apply_many, announce/gossip/broadcast, add_broadcast incl. empty/oversized/near-u16::MAX, leave, change_identity to any identity, reuse, set_config legal and illegal incl. packet-size changes; packet sizes 1..70000, max_transmissions 1..254, 4 codecs), every emitted datagram can be delivered (also twice) to the other instance; (2) scripted large-size scenarios (items around 65535 bytes under packet limits around 64 KiB, packet-size reconfiguration followed by every kind of send, very large Feed); (3) Config::new_lan/new_wan for every 251st NonZeroU32 plus boundaries (quick) or all 2^32-1 values (thorough). Oracle: catch_unwind around every call: no panic. Non-trivial: a sequence that reached >= 3 distinct Error variants, a state change after a successful reconfiguration, or a crafted timer carrying the current token; distinct = (set of (call kind, result kind), set of message kinds sent, regime)."
             .into(),
         assumptions: vec![
             "user-supplied Codec, Runtime, BroadcastHandler and Identity are the harness's own total implementations (and the bundled postcard / limited-bincode codecs)".into(),
@@ -664,6 +708,7 @@ pub fn replay(part_name: &str, case: &Value) -> Option<Result<(), Fail>> {
     match part_name {
         p if p.starts_with("fuzz:") => replay_fuzz(p, case),
         "api-sequences" => Some(replay_with(&OpsPart, case)),
+        "long-lived-instance" => Some(replay_with(&LongLivedPart, case)),
         "scripted-large-sizes" => Some((|| {
             let s: Scenario = serde_json::from_value(case.clone()).map_err(|e| Fail::new("replay:bad-file", e.to_string()))?;
             exec_scenario(&s, &mut CaseOut::default())
